@@ -3,8 +3,9 @@ import OnetVerif.Model.C20
 grammar of well-formed addresses, written without any of the index arithmetic of the code
 (`Model/C20.lean`).  `Props/C20.lean` proves that the code's `Valid` accepts exactly this grammar.
 
-Shared with the model on purpose (library behaviour, not address.go's logic): `parseIP`
-(`net.ParseIP ≠ nil`) and `goLower` (`strings.ToLower`). -/
+Shared with the model on purpose (library behaviour, not address.go's logic): `parseIPv6`
+(the IPv6 half of `net.ParseIP ≠ nil`; IPv4 literals have their own grammar here, proved equivalent
+in `Proofs/C20IPv4.lean`) and `goLower` (`strings.ToLower`). -/
 namespace C20
 
 /-- no colon and no square bracket -/
@@ -62,6 +63,20 @@ def HostName (h : Str) : Prop :=
     (∀ l ∈ ls, 1 ≤ l.length ∧ l.length ≤ 63) ∧
     (ls.length = 1 ∨ ((∀ l ∈ ls.dropLast, Label l) ∧ ∃ t, ls.getLast? = some t ∧ Tld t))
 
+/-- one field of a dotted quad: 1..3 decimal digits, value ≤ 255, no leading zero -/
+def Octet (f : Str) : Prop := Digits f ∧ decVal f ≤ 255 ∧ (1 < f.length → f.head? ≠ some 48)
+
+/-- an IPv4 literal `a.b.c.d` -/
+def IPv4 (s : Str) : Prop :=
+  ∃ a b c d, Octet a ∧ Octet b ∧ Octet c ∧ Octet d ∧ s = a ++ 46 :: (b ++ 46 :: (c ++ 46 :: d))
+
+/-- an IPv6 literal: a string whose first special character (of `.`, `:`, `%`) is a colon and that
+the model of `netip.parseIPv6` accepts (groups of 1..4 hex digits, one optional `::`, an optional
+embedded IPv4 tail, no zone).  This part of the grammar is *not* independent of the model: the IPv6
+recogniser is library behaviour transcribed once and shared. -/
+def IPv6Lit (s : Str) : Prop :=
+  s.find? (fun c => c = 46 || c = 58 || c = 37) = some 58 ∧ parseIPv6 s = true
+
 /-- `Parse a t na h p`: `a` is `t://na` with a known connection type `t`, no further separator, and
 `na` is the host:port `h`, `p`. -/
 def Parse (a t na h p : Str) : Prop :=
@@ -70,6 +85,6 @@ def Parse (a t na h p : Str) : Prop :=
 /-- **the independent grammar of valid addresses**: known connection type, separator, host:port
 whose host is empty, an IP address or a well-formed host name and whose port is in range. -/
 def Spec (a : Str) : Prop :=
-  ∃ t na h p, Parse a t na h p ∧ PortOk p ∧ (h = [] ∨ parseIP h = true ∨ HostName h)
+  ∃ t na h p, Parse a t na h p ∧ PortOk p ∧ (h = [] ∨ IPv4 h ∨ IPv6Lit h ∨ HostName h)
 
 end C20
